@@ -138,7 +138,10 @@ def gen_int(cfg, rng):
         elif mr < 0.75:
             mant &= ~1                       # even
         half = 1 << (shift - 1)
-        rem = rng.choice((half, half, half - 1 if half > 1 else 0, half + 1 if shift > 1 else half, 0, 1 if shift > 1 else 0, (1 << shift) - 1, rng.getrandbits(shift)))
+        j = rng.randrange(shift - 1) if shift > 1 else 0
+        rem = rng.choice((half, half, half - 1 if half > 1 else 0, half + 1 if shift > 1 else half, 0, 1 if shift > 1 else 0, (1 << shift) - 1, rng.getrandbits(shift),
+                          # a tie plus / minus one sticky bit at an arbitrary position below the half bit
+                          (half | (1 << j)) if shift > 1 else half, (half | (1 << j)) if shift > 1 else half, (half - (1 << j)) if shift > 1 else 0))
         v = (mant << shift) | rem
     elif r < 0.8:
         # around the largest finite float
@@ -206,6 +209,14 @@ def requests(cfg, rng, n, tier, part, nparts, st):
     if cfg.bits == 16 and part == 0:
         for v in range(0, 65536, 5):
             yield 'tof', (cfg.val(v),)
+    ks = list(range(0, cfg.bits + 1))
+    lo, hi = (len(ks) * part // nparts, len(ks) * (part + 1) // nparts)
+    for k in ks[lo:hi]:
+        for v in ((1 << k) - 1, 1 << k, (1 << k) | rng.getrandbits(k) if k else 1):
+            if v <= cfg.max:
+                yield 'tof', (cfg.wrap(v),)
+            if cfg.signed and -v >= cfg.min:
+                yield 'tof', (cfg.wrap(-v),)
     for _ in range(n // 2):
         yield 'tof', (gen_int(cfg, rng),)
     for _ in range(n - n // 2):
